@@ -1293,7 +1293,7 @@ class Explorer:
         outcome = "done"
         info = None
         old = signal.signal(signal.SIGALRM, _alarm)
-        signal.setitimer(signal.ITIMER_REAL, self.path_wall * 1.5 + 5)
+        signal.setitimer(signal.ITIMER_REAL, self.path_wall + 1.0)
         try:
             try:
                 self.harness(s, **self.params)
@@ -1342,7 +1342,7 @@ class Explorer:
         outcome = "done"
         info = None
         old = signal.signal(signal.SIGALRM, _alarm)
-        signal.setitimer(signal.ITIMER_REAL, wall_s or (self.path_wall * 2))
+        signal.setitimer(signal.ITIMER_REAL, wall_s or (self.path_wall + 1.0))
         try:
             try:
                 self.harness(s, **self.params)
@@ -1457,6 +1457,9 @@ class Explorer:
                 st.exhaustive = False
                 break
             if self.wall_s is not None and time.monotonic() - t0 > self.wall_s:
+                st.exhaustive = False
+                break
+            if len(st.timeouts) >= 3:  # hanging sub-tree: stop this work item (reported, not exhaustive)
                 st.exhaustive = False
                 break
             ctx, s, outcome, info = self._run_path(prefix, start_model)
